@@ -14,13 +14,14 @@ mkdir -p $base
 wt=$base/repo
 git -C /repo worktree remove --force $wt >/dev/null 2>&1
 rm -rf $wt $base/verif
-git -C /repo worktree add --detach $wt HEAD >/dev/null 2>&1 || { echo "MACHINERY: worktree add failed"; exit 2; }
+git -C /repo worktree add --detach $wt ${VP_MUT_BASE:-HEAD} >/dev/null 2>&1 || { echo "MACHINERY: worktree add failed"; exit 2; }
 if ! git -C $wt apply "$patch"; then echo "MACHINERY: patch does not apply"; git -C /repo worktree remove --force $wt; exit 2; fi
 mkdir -p $base/verif
 cp -r /verif/harness $base/verif/harness
 cp -r /verif/findings $base/verif/findings 2>/dev/null
 cp /verif/known-findings.json $base/verif/ 2>/dev/null
 cp /verif/vcheck $base/verif/vcheck
+if [ -n "${VP_MUT_FINDINGS_REV:-}" ]; then for f in $(git -C /verif ls-tree --name-only $VP_MUT_FINDINGS_REV findings/); do git -C /verif show $VP_MUT_FINDINGS_REV:$f > $base/verif/$f; done; git -C /verif show $VP_MUT_FINDINGS_REV:known-findings.json > $base/verif/known-findings.json; fi
 sed -i "s#path = \"/repo/rsass\"#path = \"$wt/rsass\"#" $base/verif/harness/Cargo.toml
 rc=0
 for id in $ids; do
